@@ -8,9 +8,10 @@ cd $WT || exit 2
 echo "== diff files:"; git diff --stat | tail -3
 git diff > /tmp/confirm_$P$S.diff; diff -q /tmp/confirm_$P$S.diff $W/patch.diff >/dev/null && echo "patch.diff matches worktree" || echo "NOTE: patch.diff differs from worktree diff (using worktree diff)"
 echo "== incremental build"; cmake --build _build -j16 2>&1 | tail -1
-echo "== ctest"; ctest --test-dir _build -j8 --timeout 900 2>&1 | tail -4
+[ -n "${SKIP_CTEST:-}" ] || { echo "== ctest"; ctest --test-dir _build -j8 --timeout 900 2>&1 | tail -4; }
 LINK="-L/root/miniconda/lib -Wl,-rpath,/root/miniconda/lib -labsl_base -labsl_time -lprotobuf -lpthread"
 EXTRA=$(grep -h "^// *EXTRA_FLAGS:" $W/demo.cc | sed 's/^.*EXTRA_FLAGS://')
+[ -n "$EXTRA" ] || EXTRA="-Wl,--no-as-needed -labsl_str_format_internal -labsl_time_zone -labsl_civil_time -labsl_hash -labsl_raw_hash_set -labsl_city -labsl_low_level_hash -labsl_throw_delegate -labsl_strings -labsl_strings_internal -labsl_int128 -labsl_raw_logging_internal -labsl_spinlock_wait -labsl_synchronization"
 for mode in with without; do
   if [ $mode = with ]; then SRC=$WT/src; LIB=$WT/_build; else SRC=/repo/src; LIB=/repo/_build; fi
   g++ -std=gnu++20 -O2 -DNDEBUG -w $EXTRA -I$SRC -isystem /root/miniconda/include $W/demo.cc -L$LIB -lbabylon $LINK -o /tmp/demo_$P${S}_$mode 2>&1 | head -5
